@@ -97,4 +97,11 @@ inductive KwStage where
   | recordInject  -- `kwargs.update(record=log_record)` under `if record:`
   deriving DecidableEq, Repr
 
+/-- the execution context in which the task that `AsyncSink.write` creates for a coroutine sink runs:
+`loop.create_task(coroutine)` copies the CURRENT context of the emitting call for every task (PEP 567), a
+`context=` argument holding one stored `Context` object makes all tasks of the handler run in that ONE context -/
+inductive TaskCtx where
+  | copyOfCaller | shared
+  deriving DecidableEq, Repr
+
 end Context
